@@ -216,6 +216,15 @@ func (c10) Generate(rng *rand.Rand, tier string, st *Stats) []Case {
 	}
 	mk("corpus-race", [][]string{{"sendraw", hx("<x/>")}, {"race", hx("<slow/>"), hx("<fast/>")}, {"ack", "2"}, {"race", hx("<slow2/>"), hx("<fast2/>")}, {"ack", "3"}})
 	mk("corpus-recv-answer-not-held", [][]string{{"sendraw", hx("<x/>")}, c10req(0), {"sendraw", hx("<y/>")}, {"ack", "1"}, {"inmsg"}, c10req(1), {"ack", "2"}})
+	// raw stanzas whose TEXT mentions stream management (a disco result listing the feature, a body quoting <r/>,
+	// element names that begin like the nonzas): stanzas all the same - held, numbered, retransmitted
+	{
+		disco := "<iq type='result' id='d1'><query xmlns='http://jabber.org/protocol/disco#info'><feature var='urn:xmpp:sm:3'/></query></iq>"
+		quote := "<message id='q1'><body>&lt;r xmlns='urn:xmpp:sm:3'/&gt;</body></message>"
+		mk("corpus-raw-mentions-sm", [][]string{{"sendraw", hx("<message id='m1'/>")}, {"sendraw", hx(disco)}, {"sendraw", hx(quote)}, {"ack", "0"}, {"ack", "2"}})
+		mk("corpus-raw-lookalikes", [][]string{{"sendraw", hx("<route/>")}, {"sendraw", hx("<a:b xmlns:a='x'/>")}, {"sendraw", hx("<r2/>")}, {"sendraw", hx("<answer/>")}, {"ack", "1"}, {"ack", "3"}})
+		mk("corpus-raw-blank", [][]string{{"sendraw", hx("<x/>")}, {"sendraw", hx(" \n\t ")}, {"sendraw", hx("<y/>")}, {"ack", "1"}})
+	}
 	// bounded-exhaustive: all histories of length <= L over a small alphabet
 	uniq := 0
 	alpha := []func() []string{
